@@ -64,9 +64,28 @@ func (r *Run) callSeqRec(fd *FuncDecl, onPath map[*FuncDecl]bool, depth int) []s
 		}
 		var items []item
 		spawned := map[*ast.CallExpr]bool{}
+		calledFuns := map[ast.Expr]bool{} // expressions in call position
+		ast.Inspect(u.Body, func(n ast.Node) bool {
+			if c, ok := n.(*ast.CallExpr); ok {
+				f := ast.Unparen(c.Fun)
+				calledFuns[f] = true
+				switch x := f.(type) {
+				case *ast.IndexExpr:
+					calledFuns[ast.Unparen(x.X)] = true
+				case *ast.IndexListExpr:
+					calledFuns[ast.Unparen(x.X)] = true
+				}
+			}
+			return true
+		})
 		ast.Inspect(u.Body, func(n ast.Node) bool {
 			if lit, ok := n.(*ast.FuncLit); ok && lit != u.Lit {
 				return false
+			}
+			// an in-module function used as a value (`p.combine(x, y, ct.AndBytes)`) is performed by whoever
+			// receives it: it counts like a call of it
+			if ref := u.funcValueRef(n, calledFuns); ref != nil && InModule(ref) && !r.trivialAccessor(ref) {
+				items = append(items, item{int(n.End()), FuncKey(ref), nil, nil})
 			}
 			if gs, ok := n.(*ast.GoStmt); ok {
 				spawned[gs.Call] = true // what a spawned goroutine does is not part of this function's calls
@@ -76,7 +95,7 @@ func (r *Run) callSeqRec(fd *FuncDecl, onPath map[*FuncDecl]bool, depth int) []s
 				return true
 			}
 			f, _ := typeutil.Callee(u.Info, c).(*types.Func)
-			if f == nil || !InModule(f) || r.trivialAccessor(f) || higherOrderUtility(f) {
+			if f == nil || !InModule(f) || r.trivialAccessor(f) || higherOrderUtility(f) || containerQuery(f) {
 				return true
 			}
 			k := FuncKey(f)
@@ -169,6 +188,43 @@ func (u *Unit) constStringArg(a ast.Expr, depth int) string {
 		}
 	}
 	return ""
+}
+
+// funcValueRef: n is an identifier / selector that denotes a function and is not in call position.
+func (u *Unit) funcValueRef(n ast.Node, called map[ast.Expr]bool) *types.Func {
+	switch x := n.(type) {
+	case *ast.SelectorExpr:
+		isCall := called[x]
+		called[x.Sel] = true // the selector's identifier is visited next: already accounted for here
+		if isCall {
+			return nil
+		}
+		f, _ := u.Info.Uses[x.Sel].(*types.Func)
+		return f
+	case *ast.Ident:
+		if called[x] {
+			return nil
+		}
+		f, _ := u.Info.Uses[x].(*types.Func)
+		if f != nil && f.Type().(*types.Signature).Recv() != nil {
+			return nil // the Sel of a method selector is visited with its SelectorExpr
+		}
+		return f
+	}
+	return nil
+}
+
+// containerQuery: read-only queries of the generic containers in pkg/base/datastructures. Whether code asks
+// `ContainsKey` before `Get` or uses the comma-ok result of `Get` alone is not behaviour.
+func containerQuery(f *types.Func) bool {
+	if f.Pkg() == nil || !strings.Contains(f.Pkg().Path(), "/pkg/base/datastructures") {
+		return false
+	}
+	switch f.Name() {
+	case "Contains", "ContainsKey", "Get", "Size", "IsEmpty", "Len":
+		return true
+	}
+	return false
 }
 
 // trivialAccessor: a function whose body is `return <field / constant / selector chain>`. Whether and
